@@ -44,7 +44,9 @@ func Defs() []*schema.StoreDef {
 			{Name: "b", Kind: schema.KBool}, {Name: "t", Kind: schema.KTime}, {Name: "grp", Kind: schema.KStr, Prefix: []string{"ext"}},
 			{Name: "tags", Kind: schema.KList}, {Name: "nums", Kind: schema.KList}, {Name: "owner", Kind: schema.KStr, FK: Owners},
 			{Name: "friends", Kind: schema.KLinks, FK: Others}, {Name: "meta", Kind: schema.KMap},
+			{Name: "uk", Kind: schema.KStr}, // a key of its own per thing, or null: carries a nullable unique index
 		},
+		Unique: []schema.UniqueDef{{Field: "uk", Nullable: true}},
 		SetIdx: []string{"nums"},
 		FKs:    []schema.FKDef{{Field: "owner", Target: Owners, Kind: schema.FkIndexNullable, BackRef: "things"}},
 		Links:  []schema.LinkDef{{Field: "friends", Target: Others, TargetField: "things"}}}
@@ -90,7 +92,7 @@ type SymInfo struct {
 }
 
 var symbols = map[string]map[string]SymInfo{
-	Things: {"id": {Type: TStr}, "s": {Type: TStr}, "ism": {Type: TInt}, "ibig": {Type: TInt}, "flt": {Type: TFloat}, "b": {Type: TBool}, "t": {Type: TTime}, "grp": {Type: TStr},
+	Things: {"id": {Type: TStr}, "uk": {Type: TStr}, "s": {Type: TStr}, "ism": {Type: TInt}, "ibig": {Type: TInt}, "flt": {Type: TFloat}, "b": {Type: TBool}, "t": {Type: TTime}, "grp": {Type: TStr},
 		"tags": {Type: TStr, Set: true}, "nums": {Type: TStr, Set: true}, "owner": {Type: TStr, Target: Owners}, "friends": {Type: TStr, Set: true, Target: Others}, "meta": {Type: TAny, Map: true}},
 	Owners: {"id": {Type: TStr}, "name": {Type: TStr}, "age": {Type: TInt}, "active": {Type: TBool}, "tags": {Type: TStr, Set: true}, "things": {Type: TStr, Set: true, Target: Things}},
 	Others: {"id": {Type: TStr}, "name": {Type: TStr}, "rank": {Type: TInt}, "tags": {Type: TStr, Set: true}, "things": {Type: TStr, Set: true, Target: Things}},
@@ -148,6 +150,16 @@ func GenWorld(r *core.Rand, maxThings int, small bool) *World {
 		v := map[string]any{
 			"s": pickNullable(r, sp, 0.25), "ibig": pickNullable(r, ip, 0.25), "flt": pickNullable(r, fp, 0.25), "b": pickNullable(r, []bool{true, false}, 0.25),
 			"t": pickNullable(r, TimePool, 0.25), "grp": pickNullable(r, sp[:4], 0.3), "tags": core.Subset(r, TagPool, 0.3), "nums": core.Subset(r, NumTagPool, 0.3),
+		}
+		// unique per thing, in another order than the ids; null for about a third
+		if r.P(0.35) {
+			v["uk"] = nil
+		} else {
+			b := []byte(id)
+			for i, j := 0, len(b)-1; i < j; i, j = i+1, j-1 {
+				b[i], b[j] = b[j], b[i]
+			}
+			v["uk"] = "k" + string(b)
 		}
 		if r.P(0.25) {
 			v["ism"] = nil
